@@ -292,6 +292,18 @@ def _stmt_helper(fn, drop_self, generator=False):
     return names, defaults, body
 
 
+def _tail_helper(fn, drop_self):
+    """helper that stands behind a `return`: no yield, no await, no global; its returns may be anywhere"""
+    body = _strip_doc(fn.body)
+    names, defaults = _params(fn, drop_self)
+    if names is None or not body:
+        return None
+    for n in _walk_own(fn):
+        if isinstance(n, (ast.Await, ast.Global, ast.Nonlocal, ast.Yield, ast.YieldFrom)):
+            return None
+    return names, defaults, body
+
+
 class _Rename(ast.NodeTransformer):
     def __init__(self, mapping):
         self.m = mapping
@@ -340,15 +352,25 @@ def _inline_stmt(st, call, helper, counter):
     sub = {p: m[p] for p in names if p not in ren}
     res = prefix + "result"
     need_value = isinstance(st, (ast.Assign, ast.Return)) or (isinstance(st, ast.Expr) and False)
+    tail_call = False
     try:
         flat, _ = _elim_returns([clone(b) for b in body], res if need_value else None)
     except _NoInline:
-        return None
+        # `return helper(...)`: whatever the helper returns, the caller returns - its body stands in place of the statement with its own
+        # `return`s (also from inside loops), provided it is not a generator
+        if isinstance(st, ast.Return) and st.value is call and not any(isinstance(n, (ast.Yield, ast.YieldFrom)) for b in body for n in _walk_own(b)):
+            flat = [clone(b) for b in body]
+            last = flat[-1] if flat else None
+            if not isinstance(last, (ast.Return, ast.Raise)):
+                flat.append(ast.Return(value=ast.Constant(value=None)))
+            tail_call = True
+        else:
+            return None
     new_body = []
     for b in flat:
         nb = _Rename(ren).visit(_Subst(sub).visit(b))
         new_body.append(nb)
-    if need_value:
+    if need_value and not tail_call:
         # a single trailing `<result> = X` is folded into the receiving statement
         if new_body and isinstance(new_body[-1], ast.Assign) and isinstance(new_body[-1].targets[0], ast.Name) \
                 and new_body[-1].targets[0].id == res and not any(isinstance(n, ast.Name) and n.id == res for b in new_body[:-1] for n in ast.walk(b)):
@@ -361,6 +383,8 @@ def _inline_stmt(st, call, helper, counter):
             # several result assignments (branches): rename the result to the receiving name when that is a plain name
             if isinstance(st, ast.Assign) and len(st.targets) == 1 and isinstance(st.targets[0], ast.Name):
                 new_body = [_Rename({res: st.targets[0].id}).visit(b) for b in new_body]
+            elif isinstance(st, ast.Assign) and _spread_tuple_result(new_body, res, st, prefix):
+                pass
             elif isinstance(st, ast.Assign):
                 new_body.append(ast.Assign(targets=[clone(t) for t in st.targets], value=ast.Name(id=res, ctx=ast.Load())))
             else:
@@ -373,6 +397,71 @@ def _inline_stmt(st, call, helper, counter):
                 n.lineno = getattr(st, "lineno", 1)
                 n.col_offset = getattr(st, "col_offset", 0)
     return out
+
+
+def _spread_tuple_result(new_body, res, st, prefix):
+    """a, b, c = helper(...) where every return of the helper is a display of three values: each `<result> = (x, y, z)` becomes
+    a = x; b = y; c = z in place (the values of one return must not read the receiving names: the assignment was simultaneous)"""
+    if not (len(st.targets) == 1 and isinstance(st.targets[0], (ast.Tuple, ast.List)) and all(isinstance(e, ast.Name) for e in st.targets[0].elts)):
+        return False
+    tnames = [e.id for e in st.targets[0].elts]
+    if len(set(tnames)) != len(tnames):
+        return False
+    sites = []
+    for owner in [ast.Module(body=new_body, type_ignores=[])] + [n for b in new_body for n in ast.walk(b)]:
+        for fld in ("body", "orelse", "finalbody"):
+            blk = getattr(owner, fld, None)
+            if isinstance(blk, list) and blk and isinstance(blk[0], ast.stmt):
+                for k, b in enumerate(blk):
+                    if isinstance(b, ast.Assign) and len(b.targets) == 1 and isinstance(b.targets[0], ast.Name) and b.targets[0].id == res:
+                        sites.append((owner, fld, b))
+        if isinstance(owner, ast.Try):
+            for h in owner.handlers:
+                for b in h.body:
+                    if isinstance(b, ast.Assign) and len(b.targets) == 1 and isinstance(b.targets[0], ast.Name) and b.targets[0].id == res:
+                        sites.append((h, "body", b))
+    uses = [n for b in new_body for n in ast.walk(b) if isinstance(n, ast.Name) and n.id == res]
+    if not sites or len(uses) != len(sites):
+        return False
+    for _, _, b in sites:
+        v = b.value
+        if not (isinstance(v, ast.Tuple) and len(v.elts) == len(tnames) and not any(isinstance(e, ast.Starred) for e in v.elts)):
+            return False
+        read = {n.id for e in v.elts for n in ast.walk(e) if isinstance(n, ast.Name)}
+        if read & set(tnames):
+            # (regex, white_list, black_list) returned under the receiving names themselves is fine when each element IS its own target
+            if not all((isinstance(e, ast.Name) and e.id == t) or not ({n.id for n in ast.walk(e) if isinstance(n, ast.Name)} & set(tnames))
+                       for e, t in zip(v.elts, tnames)):
+                return False
+    # the helper's own locals were renamed with a prefix, so the receiving names cannot be written inside the inlined body
+    for b in new_body:
+        for n in ast.walk(b):
+            if isinstance(n, ast.Name) and isinstance(n.ctx, ast.Store) and n.id in tnames:
+                return False
+    # a local of the helper that is returned in position k and nowhere else stands for the k-th receiving name: it takes that name
+    # (nothing of the helper runs after one of its returns, so the shared name cannot be observed in between)
+    loads = {n.id for b in new_body for n in ast.walk(b) if isinstance(n, ast.Name)}
+    ren = {}
+    for _, _, b in sites:
+        for t, e in zip(tnames, b.value.elts):
+            if isinstance(e, ast.Name) and e.id.startswith(prefix) and t not in loads:
+                if ren.get(e.id, t) != t or (t in ren.values() and ren.get(e.id) != t):
+                    ren[e.id] = None
+                else:
+                    ren[e.id] = t
+    ren = {k: v for k, v in ren.items() if v is not None}
+    for owner, fld, b in sites:
+        blk = new_body if isinstance(owner, ast.Module) else getattr(owner, fld)
+        k = blk.index(b)
+        repl = [ast.Assign(targets=[ast.Name(id=t, ctx=ast.Store())], value=e) for t, e in zip(tnames, b.value.elts)
+                if not (isinstance(e, ast.Name) and (e.id == t or ren.get(e.id) == t))]
+        blk[k:k + 1] = repl or [ast.Pass()]
+    if ren:
+        for b in new_body:
+            for n in ast.walk(b):
+                if isinstance(n, ast.Name) and n.id in ren:
+                    n.id = ren[n.id]
+    return True
 
 
 def _flatten_else(stmts):
@@ -566,6 +655,7 @@ class Normalizer:
             ast.fix_missing_locations(node)
             _inplace_on_new_locals(node, snap)
             _collect_keyed_fill(node, snap)
+            _param_shadow_back(node, snap)
             coalesce_aliases(node, snap)
             for _ in range(3):
                 p_ = propagate_new_temporaries(node, snap)
@@ -574,10 +664,13 @@ class Normalizer:
                 self.renamed.update(r_)
                 if not p_ and not r_:
                     break
+            _coalesce_into_rebound(node, snap)    # what is left: temporaries read several times / defined by a conditional
             if self.propagated:
                 self._unroll_new_loops(node)      # a loop over a table that was held in a temporary
         _inline_new_module_constants(node, self.module, self.known)
         _inline_new_class_constants(node, self.func, self.module)
+        _function_refs_to_lambdas(node, self.module, self.known, self.func)
+        _sort_in_place_to_sorted(node)
         if self.inlined:
             _fold_constant_conditions(node)
         n_ = len(self.inlined)
@@ -608,6 +701,7 @@ class Normalizer:
         _fuse_comprehensions(node)
         _splice_starred_displays(node)
         _concat_displays(node)
+        _explicit_keywords(node)          # f(**{"k": v}) -> f(k=v), also where the dictionary was a temporary
         if not os.environ.get("TYVERIF_NO_IFEXP"):
             _distribute_calls_over_ifexp(node)
             _expand_ifexp_statements(node, self.known)
@@ -744,6 +838,8 @@ class Normalizer:
                         eh = _expr_helper(fn, drop)
                         if eh is None or isinstance(st, ast.Expr) or _inline_expr(call, eh) is None:
                             sh = _stmt_helper(fn, drop)
+                            if sh is None and isinstance(st, ast.Return) and st.value is call:
+                                sh = _tail_helper(fn, drop)      # `return helper(...)`: the helper may return from anywhere
                             if sh is not None:
                                 self.counter += 1
                                 new = _inline_stmt(st, call, sh, self.counter)
@@ -1316,7 +1412,12 @@ def _loops_to_comprehensions(fnode, known):
             while i + 1 < len(blk):
                 a, lp = blk[i], blk[i + 1]
                 i += 1
-                if not (isinstance(a, ast.Assign) and len(a.targets) == 1 and isinstance(a.targets[0], ast.Name)
+                counting = (isinstance(a, ast.Assign) and len(a.targets) == 1 and isinstance(a.targets[0], ast.Name)
+                            and isinstance(a.value, ast.Constant) and a.value.value == 0 and type(a.value.value) is int)
+                keyed = (isinstance(a, ast.Assign) and len(a.targets) == 1 and isinstance(a.targets[0], ast.Name)
+                         and ((isinstance(a.value, ast.Dict) and not a.value.keys) or
+                              (isinstance(a.value, ast.Call) and isinstance(a.value.func, ast.Name) and a.value.func.id == "dict" and not a.value.args and not a.value.keywords)))
+                if not counting and not keyed and not (isinstance(a, ast.Assign) and len(a.targets) == 1 and isinstance(a.targets[0], ast.Name)
                         and ((isinstance(a.value, ast.List) and not a.value.elts) or
                              (isinstance(a.value, ast.Call) and isinstance(a.value.func, ast.Name) and a.value.func.id == "list" and not a.value.args and not a.value.keywords))):
                     continue
@@ -1330,11 +1431,23 @@ def _loops_to_comprehensions(fnode, known):
                 while isinstance(inner, ast.If) and not inner.orelse and len(inner.body) == 1:
                     conds.append(inner.test)
                     inner = inner.body[0]
-                if not (isinstance(inner, ast.Expr) and isinstance(inner.value, ast.Call) and isinstance(inner.value.func, ast.Attribute)
+                if counting:
+                    # n = 0; for t in S: [if c:] n += E   ->   n = sum(E for t in S if c)   (sum() starts from the integer 0 and adds left to right)
+                    if not (isinstance(inner, ast.AugAssign) and isinstance(inner.op, ast.Add) and isinstance(inner.target, ast.Name) and inner.target.id == acc):
+                        continue
+                    elt = inner.value
+                elif keyed:
+                    # d = {}; for t in S: [if c:] d[K] = V   ->   d = {K: V for t in S if c}   (a later entry of the same key replaces the earlier one)
+                    if not (isinstance(inner, ast.Assign) and len(inner.targets) == 1 and isinstance(inner.targets[0], ast.Subscript)
+                            and isinstance(inner.targets[0].value, ast.Name) and inner.targets[0].value.id == acc):
+                        continue
+                    elt = ast.Tuple(elts=[inner.targets[0].slice, inner.value], ctx=ast.Load())
+                elif not (isinstance(inner, ast.Expr) and isinstance(inner.value, ast.Call) and isinstance(inner.value.func, ast.Attribute)
                         and inner.value.func.attr == "append" and isinstance(inner.value.func.value, ast.Name) and inner.value.func.value.id == acc
                         and len(inner.value.args) == 1 and not inner.value.keywords):
                     continue
-                elt = inner.value.args[0]
+                else:
+                    elt = inner.value.args[0]
                 used = names(elt) | names(lp.iter)
                 for c_ in conds:
                     used |= names(c_)
@@ -1348,7 +1461,13 @@ def _loops_to_comprehensions(fnode, known):
                 # conservatively, any later load of the name outside a statement that binds it again blocks the rewrite
                 if after and not all(_rebound_before(fnode, lp, n) for n in after):
                     continue
-                comp = ast.ListComp(elt=elt, generators=[ast.comprehension(target=lp.target, iter=lp.iter, ifs=list(conds), is_async=0)])
+                gens = [ast.comprehension(target=lp.target, iter=lp.iter, ifs=list(conds), is_async=0)]
+                if counting:
+                    comp = ast.Call(func=ast.Name(id="sum", ctx=ast.Load()), args=[ast.GeneratorExp(elt=elt, generators=gens)], keywords=[])
+                elif keyed:
+                    comp = ast.DictComp(key=elt.elts[0], value=elt.elts[1], generators=gens)
+                else:
+                    comp = ast.ListComp(elt=elt, generators=gens)
                 new = ast.copy_location(ast.Assign(targets=[a.targets[0]], value=ast.copy_location(comp, lp)), lp)
                 blk[i - 1:i + 1] = [new]
                 ast.fix_missing_locations(new)
@@ -1925,6 +2044,263 @@ def _fold_constant_conditions(fnode):
     ast.fix_missing_locations(fnode)
 
 
+def _param_shadow_back(fnode, snapshot):
+    """A NEW local that takes the place of a re-bound parameter (`T_arr = np.asarray([T]) if scalar else T` ... use T_arr) is the
+    parameter again: one of its definitions is exactly `X = P`, and from its first definition on P is read only inside X's definitions."""
+    params = [a.arg for a in fnode.args.posonlyargs + fnode.args.args + fnode.args.kwonlyargs]
+    known = set(snapshot or ())
+    stores = {}
+    for n in ast.walk(fnode):
+        if isinstance(n, ast.Name) and isinstance(n.ctx, (ast.Store, ast.Del)):
+            stores.setdefault(n.id, []).append(n)
+    changed = 0
+    for x in sorted(stores):
+        if x in known or x in params:
+            continue
+        defs = [st for st in ast.walk(fnode) if isinstance(st, ast.Assign) and len(st.targets) == 1 and isinstance(st.targets[0], ast.Name) and st.targets[0].id == x]
+        if len(defs) != len(stores[x]) or not defs:
+            continue
+        ident = [st for st in defs if isinstance(st.value, ast.Name) and st.value.id in params]
+        cand = {st.value.id for st in ident}
+        ifexp = [st for st in defs if isinstance(st.value, ast.IfExp) and any(isinstance(b, ast.Name) and b.id in params for b in (st.value.body, st.value.orelse))]
+        for st in ifexp:
+            cand |= {b.id for b in (st.value.body, st.value.orelse) if isinstance(b, ast.Name) and b.id in params}
+        if len(cand) != 1:
+            continue
+        p = cand.pop()
+        if p in stores:
+            continue            # the parameter is re-bound itself somewhere
+        first = min(getattr(st, "lineno", 0) for st in defs)
+        in_defs = {id(n) for st in defs for n in ast.walk(st)}
+        later = [n for n in ast.walk(fnode) if isinstance(n, ast.Name) and n.id == p and isinstance(n.ctx, ast.Load) and id(n) not in in_defs
+                 and getattr(n, "lineno", 0) >= first]
+        if later:
+            continue
+        before = [n for n in ast.walk(fnode) if isinstance(n, ast.Name) and n.id == x and isinstance(n.ctx, ast.Load) and getattr(n, "lineno", 0) < first]
+        if before:
+            continue
+        _Rename({x: p}).visit(fnode)
+
+        def drop(stmts):
+            out = []
+            for st in stmts:
+                if isinstance(st, ast.Assign) and len(st.targets) == 1 and isinstance(st.targets[0], ast.Name) and isinstance(st.value, ast.Name) \
+                        and st.targets[0].id == st.value.id == p:
+                    continue
+                for fld in ("body", "orelse", "finalbody"):
+                    sub = getattr(st, fld, None)
+                    if isinstance(sub, list) and sub and isinstance(sub[0], ast.stmt):
+                        new = drop(sub)
+                        setattr(st, fld, new if (new or fld != "body") else [ast.copy_location(ast.Pass(), st)])
+                out.append(st)
+            return out
+        fnode.body = drop(fnode.body)
+        changed += 1
+    if changed:
+        ast.fix_missing_locations(fnode)
+    return changed
+
+
+def _coalesce_into_rebound(fnode, snapshot):
+    """first = E(start) ... start = F(first)  ->  start = E(start) ... start = F(start): a NEW local whose whole life lies between its
+    definition (one assignment, or one if/else tree of single assignments) and a later re-binding of a KNOWN name P in the same
+    block, while P itself is neither read nor written from that definition up to the re-binding, shares P's name - their live ranges
+    do not meet (not inside `try`: a handler could see the difference)."""
+    params = {a.arg for a in fnode.args.posonlyargs + fnode.args.args + fnode.args.kwonlyargs}
+    if fnode.args.vararg:
+        params.add(fnode.args.vararg.arg)
+    if fnode.args.kwarg:
+        params.add(fnode.args.kwarg.arg)
+    known = set(snapshot or ()) | params
+    in_try = {id(x) for t in ast.walk(fnode) if isinstance(t, ast.Try) for x in ast.walk(t) if x is not t}
+    # (a generator expression reads its names when it is consumed, not where it is written)
+    nested = {n.id for d in ast.walk(fnode) if isinstance(d, (ast.FunctionDef, ast.AsyncFunctionDef, ast.Lambda, ast.ClassDef, ast.GeneratorExp)) and d is not fnode
+              for n in ast.walk(d) if isinstance(n, ast.Name)}
+
+    def single_defs(st, name):
+        """st assigns `name` and nothing else: Assign, or an If tree whose arms are such statements; returns the value nodes or None"""
+        if isinstance(st, ast.Assign) and len(st.targets) == 1 and isinstance(st.targets[0], ast.Name) and st.targets[0].id == name:
+            return [st.value]
+        if isinstance(st, ast.If) and len(st.body) == 1 and len(st.orelse) == 1:
+            a, b = single_defs(st.body[0], name), single_defs(st.orelse[0], name)
+            if a is not None and b is not None:
+                return a + b
+        return None
+
+    def names_in(nodes, ctx=None):
+        return [n for x in nodes for n in ast.walk(x) if isinstance(n, ast.Name) and (ctx is None or isinstance(n.ctx, ctx))]
+
+    changed = 0
+    for _ in range(8):
+        hit = False
+        for owner in ast.walk(fnode):
+            for fld in ("body", "orelse", "finalbody"):
+                blk = getattr(owner, fld, None)
+                if not (isinstance(blk, list) and blk and isinstance(blk[0], ast.stmt)):
+                    continue
+                for i, s1 in enumerate(blk):
+                    if id(s1) in in_try:
+                        continue
+                    tgt = None
+                    if isinstance(s1, ast.Assign) and len(s1.targets) == 1 and isinstance(s1.targets[0], ast.Name):
+                        tgt = s1.targets[0].id
+                    elif isinstance(s1, ast.If):
+                        st_ = s1
+                        while isinstance(st_, ast.If) and len(st_.body) == 1:
+                            st_ = st_.body[0]
+                        if isinstance(st_, ast.Assign) and len(st_.targets) == 1 and isinstance(st_.targets[0], ast.Name):
+                            tgt = st_.targets[0].id
+                    if tgt is None or tgt in known or tgt in nested or single_defs(s1, tgt) is None:
+                        continue
+                    for j in range(i + 1, len(blk)):
+                        s2 = blk[j]
+                        if not (isinstance(s2, ast.Assign) and len(s2.targets) == 1 and isinstance(s2.targets[0], ast.Name)
+                                and s2.targets[0].id in known and s2.targets[0].id not in nested):
+                            continue
+                        pn = s2.targets[0].id
+                        if not any(n.id == tgt for n in names_in([s2.value])):
+                            continue
+                        # every occurrence of the new local lies in blk[i..j]
+                        inside = {id(n) for n in names_in(blk[i:j + 1])}
+                        if any(n.id == tgt and id(n) not in inside for n in names_in([fnode])):
+                            break
+                        # ... and it is bound only by the defining statement
+                        in_s1 = {id(n) for n in names_in([s1])}
+                        if any(n.id == tgt and isinstance(n.ctx, (ast.Store, ast.Del)) and id(n) not in in_s1 for n in names_in(blk[i:j + 1])):
+                            break
+                        # P is untouched from the definition up to (and including the value of) the re-binding
+                        if any(n.id == pn for n in names_in(blk[i + 1:j])) or any(n.id == pn for n in names_in([s2.value])):
+                            break
+                        if any(n.id == pn and isinstance(n.ctx, (ast.Store, ast.Del)) for n in names_in([s1])):
+                            break
+                        _Rename({tgt: pn}).visit(ast.Module(body=blk[i:j + 1], type_ignores=[]))
+                        if isinstance(blk[j].value, ast.Name) and blk[j].value.id == pn:
+                            del blk[j]            # `P = P` is left of `P = <the local>`
+                        hit = True
+                        changed += 1
+                        break
+                    if hit:
+                        break
+                if hit:
+                    break
+            if hit:
+                break
+        if not hit:
+            break
+    if changed:
+        ast.fix_missing_locations(fnode)
+    return changed
+
+
+def _sort_in_place_to_sorted(fnode):
+    """x = list(E) / x = <fresh list>; x.sort(key=..) [next statement]  ->  x = sorted(E, key=..)"""
+    count = 0
+
+    def rec(stmts):
+        nonlocal count
+        i = 0
+        while i < len(stmts):
+            st = stmts[i]
+            if isinstance(st, (ast.FunctionDef, ast.AsyncFunctionDef, ast.ClassDef)):
+                i += 1
+                continue
+            for fld in ("body", "orelse", "finalbody"):
+                sub = getattr(st, fld, None)
+                if isinstance(sub, list) and sub and isinstance(sub[0], ast.stmt):
+                    rec(sub)
+            if isinstance(st, ast.Try):
+                for h in st.handlers:
+                    rec(h.body)
+            if isinstance(st, ast.Assign) and len(st.targets) == 1 and isinstance(st.targets[0], ast.Name) and i + 1 < len(stmts):
+                nx = stmts[i + 1]
+                name = st.targets[0].id
+                if isinstance(nx, ast.Expr) and isinstance(nx.value, ast.Call) and isinstance(nx.value.func, ast.Attribute) and nx.value.func.attr == "sort" \
+                        and isinstance(nx.value.func.value, ast.Name) and nx.value.func.value.id == name and not nx.value.args \
+                        and not any(isinstance(n_, ast.Name) and n_.id == name for k_ in nx.value.keywords for n_ in ast.walk(k_.value)):
+                    v = st.value
+                    src = None
+                    if isinstance(v, ast.Call) and isinstance(v.func, ast.Name) and v.func.id == "list" and len(v.args) == 1 and not v.keywords:
+                        src = v.args[0]
+                    elif isinstance(v, (ast.List, ast.ListComp)):
+                        src = v
+                    if src is not None:
+                        st.value = ast.copy_location(ast.Call(func=ast.Name(id="sorted", ctx=ast.Load()), args=[src], keywords=list(nx.value.keywords)), v)
+                        del stmts[i + 1]
+                        count += 1
+            i += 1
+    rec(fnode.body)
+    if count:
+        ast.fix_missing_locations(fnode)
+    return count
+
+
+def _function_refs_to_lambdas(fnode, module, known, func=None):
+    """key=_helper / map(_helper, xs) / key=Class._helper / key=self._helper with a NEW helper that is one expression (after its own
+    temporaries are written out): the reference becomes the lambda it stands for"""
+    def as_lambda(st, drop_self):
+        if any(not (isinstance(d, ast.Name) and d.id == "staticmethod") for d in st.decorator_list):
+            return None
+        eh = _expr_helper(st, drop_self)
+        if eh is None or eh[1]:
+            return None
+        names = eh[0]
+        call = ast.Call(func=ast.Name(id=st.name, ctx=ast.Load()), args=[ast.Name(id=a, ctx=ast.Load()) for a in names], keywords=[])
+        body = _inline_expr(call, eh)
+        if body is None:
+            return None
+        if drop_self and any(isinstance(n, ast.Name) and n.id == "self" for n in ast.walk(body)):
+            pass        # the bound method's self is the caller's self: the lambda closes over it
+        return names, body
+    cands, mcands = {}, {}
+    for st in module.tree.body:
+        if isinstance(st, ast.FunctionDef) and st.name not in known and not st.decorator_list:
+            lam = as_lambda(st, False)
+            if lam is not None:
+                cands[st.name] = lam
+    cls = getattr(func, "cls", None) if func is not None else None
+    if cls is not None:
+        for st in getattr(cls, "body", []):
+            if isinstance(st, ast.FunctionDef) and "%s.%s" % (cls.name, st.name) not in known \
+                    and "%s._%s%s" % (cls.name, cls.name, st.name) not in known:
+                static = any(isinstance(d, ast.Name) and d.id == "staticmethod" for d in st.decorator_list)
+                if static:
+                    lam = as_lambda(st, False)
+                    if lam is not None:
+                        mcands[("self", st.name)] = mcands[("cls", st.name)] = mcands[(cls.name, st.name)] = lam
+                elif not st.decorator_list:
+                    lam = as_lambda(st, True)
+                    if lam is not None:
+                        mcands[("self", st.name)] = lam
+    if not cands and not mcands:
+        return
+    call_funcs = {id(n.func) for n in ast.walk(fnode) if isinstance(n, ast.Call)}
+
+    def make(names, body, at):
+        return ast.copy_location(ast.Lambda(args=ast.arguments(posonlyargs=[], args=[ast.arg(arg=a) for a in names], kwonlyargs=[], kw_defaults=[], defaults=[]),
+                                            body=clone(body)), at)
+
+    class R(ast.NodeTransformer):
+        def visit_Name(self, n):
+            if isinstance(n.ctx, ast.Load) and n.id in cands and id(n) not in call_funcs:
+                return make(cands[n.id][0], cands[n.id][1], n)
+            return n
+
+        def visit_Attribute(self, n):
+            if isinstance(n.ctx, ast.Load) and isinstance(n.value, ast.Name) and (n.value.id, n.attr) in mcands and id(n) not in call_funcs:
+                names, body = mcands[(n.value.id, n.attr)]
+                return make(names, body, n)
+            self.generic_visit(n)
+            return n
+    stored = {n.id for n in ast.walk(fnode) if isinstance(n, ast.Name) and isinstance(n.ctx, ast.Store)}
+    for k in list(cands):
+        if k in stored:
+            cands.pop(k)
+    if "self" in stored or "cls" in stored:
+        mcands.clear()
+    R().visit(fnode)
+    ast.fix_missing_locations(fnode)
+
+
 def _concat_displays(fnode):
     """(a, b) + (c, d) -> (a, b, c, d) and [a] + [b] -> [a, b]: the sum of two displays of the same kind is the display"""
     class C(ast.NodeTransformer):
@@ -1982,7 +2358,7 @@ def _explicit_keywords(fnode):
 
 
 CONSTANT_ROOTS = {"np", "numpy", "math", "datetime", "timedelta", "date", "frozenset", "set", "tuple", "dict", "list", "float", "int", "str", "slice",
-                  "range", "re", "operator", "pd", "Fraction", "Decimal"}
+                  "range", "re", "operator", "pd", "Fraction", "Decimal", "getattr", "hasattr", "calendar", "scipy", "os", "posixpath"}
 
 
 def _constant_expr(v, consts=(), depth=0):
@@ -2001,9 +2377,17 @@ def _constant_expr(v, consts=(), depth=0):
         return _constant_expr(v.operand, consts, depth + 1)
     if isinstance(v, ast.BinOp):
         return _constant_expr(v.left, consts, depth + 1) and _constant_expr(v.right, consts, depth + 1)
+    if isinstance(v, ast.BoolOp):
+        return all(_constant_expr(x, consts, depth + 1) for x in v.values)
+    if isinstance(v, ast.IfExp):
+        return all(_constant_expr(x, consts, depth + 1) for x in (v.test, v.body, v.orelse))
+    if isinstance(v, ast.Compare):
+        return _constant_expr(v.left, consts, depth + 1) and all(_constant_expr(x, consts, depth + 1) for x in v.comparators)
     if isinstance(v, ast.Name):
         return v.id in CONSTANT_ROOTS or v.id in consts
     if isinstance(v, ast.Attribute):
+        if v.attr in ("environ", "argv", "path", "stdin", "stdout", "modules") and isinstance(v.value, ast.Name) and v.value.id in ("os", "sys"):
+            return v.attr == "path" and v.value.id == "os"      # os.path.<function> is fine; os.environ & co. are state of the process
         return _constant_expr(v.value, consts, depth + 1)
     if isinstance(v, ast.Subscript):
         return _constant_expr(v.value, consts, depth + 1) and _constant_expr(v.slice, consts, depth + 1)
